@@ -24,7 +24,7 @@ RUNS = {"quick": 1000, "thorough": 60000}
 JOBS = {"quick": 8, "thorough": 16}
 RUN_WALL_GUARD = 600
 SEARCH_SPACE = "meshes x origins x orientations x windows x slab thickness x (x,y,z) resolutions x reductions x (thread count, partition, interleaving of every store of the kernel's 3-D output buffer)"
-RULE = ("one run = one in-memory AMR tiling mapped once with a thickness dz and a reduction, kernel simulated at T=1 and under a seeded schedule; every pixel "
+RULE = ("one run = one in-memory AMR tiling mapped once with a thickness dz and a reduction (call-level, 25% of the layers with their own; 12% after an earlier map with the same objects), kernel simulated at T=1 and under a seeded schedule; every pixel "
         "column is sampled independently; distinct = hash of (workload, conflict signature); non-trivial = >= 4 pixels whose whole column is unambiguous "
         "with >= 2 depth samples, at least one of them hitting a cell")
 ASSUMPTIONS = [
@@ -78,7 +78,12 @@ def generate(rng, tier):
         if isinstance(view["resolution"], int):
             view["resolution"] = {"x": view["resolution"], "y": view["resolution"]}
         view["resolution"]["z"] = zres
-    return {"mesh": m, "view": view, "direction": gen_direction(rng, m["ndim"]), "layers": c03.gen_layers(rng, m["ndim"]), "call_mode": None,
+    layers = c03.gen_layers(rng, m["ndim"])
+    for l in layers:
+        # a Layer may carry its own reduction, which then beats the one of the call
+        if rng.random() < 0.25:
+            l["op"] = rng.choice(OPS + ["sum", "mean"])
+    return {"mesh": m, "view": view, "direction": gen_direction(rng, m["ndim"]), "layers": layers, "call_mode": None,
             "dz": dz, "dz_unit": rng.choice([m["unit"], m["unit"], "cm", "m"]), "operation": rng.choice(OPS + ["sum", "mean"]),
             "sched": draw_schedule_config(rng, maxT=8), "knob": rng.choice([None, None, None, 1024, 16384])}
 
@@ -186,7 +191,7 @@ def execute(case, stats):
             for k in range(len(p1.layers)):
                 a, b = p1.layers[k]["data"], p2.layers[k]["data"]
                 ma, mb = np.ma.getmaskarray(a), np.ma.getmaskarray(b)
-                if not np.array_equal(ma, mb) or not np.array_equal(np.ma.getdata(a)[~ma], np.ma.getdata(b)[~mb]):
+                if not np.array_equal(ma, mb) or not np.array_equal(np.ma.getdata(a)[~ma], np.ma.getdata(b)[~mb], equal_nan=True):  # (shown pixels may be NaN when layers reduce differently)
                     V("schedule-dependence", "pixels", {"layer": k})
     wl = core.digest({k: case[k] for k in ("mesh", "view", "direction", "layers", "dz", "dz_unit", "operation")})[:16]
     res["signature"] = wl + ":" + sig
@@ -311,15 +316,17 @@ def judge_thick(case, plot, call, cells, loc, vals, origin_s, nuv, V, stats, dg)
     if len(plot.layers) != nl:
         V("structure", "layer-count", {"got": len(plot.layers)})
         return None
-    op = case["operation"]
-    fn = getattr(np, op)
-    scaled = op in ("sum", "nansum")
+    # every layer is reduced with its own operation if it has one, with the call's otherwise
+    ops = [l.get("op") or case["operation"] for l in case["layers"]]
+    uniform_ops = len(set(ops)) == 1
+    if not uniform_ops:
+        stats.inc("probe.layers_with_different_reductions_in_one_call")
     spatial = osyris.units(m["unit"])
     for k, (layer, l) in enumerate(zip(plot.layers, case["layers"])):
         base = dg[l["key"]].unit
-        want = base * spatial if scaled else base
+        want = base * spatial if ops[k] in ("sum", "nansum") else base
         if layer["unit"] != want:
-            V("unit", "layer-unit", {"layer": k, "unit": str(layer["unit"]), "want": str(want), "operation": op})
+            V("unit", "layer-unit", {"layer": k, "unit": str(layer["unit"]), "want": str(want), "operation": ops[k], "call_operation": case["operation"]})
             return None
     n_good = n_amb = n_hit = 0
     datas = [np.ma.getdata(l["data"]) for l in plot.layers]
@@ -358,18 +365,24 @@ def judge_thick(case, plot, call, cells, loc, vals, origin_s, nuv, V, stats, dg)
                         e = c03.expected_layers(case, vals, c, u, v)[k]
                     samples.append(np.atleast_1d(e))
                 arr = np.stack(samples, axis=0)  # (nz, ncomp)
+                op = ops[k]
                 with np.errstate(all="ignore"), warnings.catch_warnings():
                     warnings.simplefilter("ignore")
-                    exp = fn(arr, axis=0)
-                if scaled:
+                    exp = getattr(np, op)(arr, axis=0)
+                if op in ("sum", "nansum"):
                     exp = exp * zstep
                 # the mask follows the last layer's reduced value
                 lastarr = np.stack([np.atleast_1d(c03.expected_layers(case, vals, c if c is not None else 0, u, v)[-1] * (1.0 if c is not None else np.nan)) for c in col], axis=0)
                 with np.errstate(all="ignore"), warnings.catch_warnings():
                     warnings.simplefilter("ignore")
-                    last = fn(lastarr, axis=0)
+                    last = getattr(np, ops[-1])(lastarr, axis=0)
                 want_masked = bool(np.isnan(np.atleast_1d(last)[-1]))
                 got_masked = bool(np.all(masks[k][j, i]))
+                if not uniform_ops:
+                    # which pixels are masked when the layers reduce differently is not part of the statement: shown values are judged
+                    if got_masked or np.any(np.isnan(exp)):
+                        continue
+                    want_masked = False
                 if want_masked != got_masked:
                     V("column", "mask", {"layer": k, "pixel": [j, i], "want_masked": want_masked, "column": col, "operation": op, "nz": nz})
                     return None
@@ -377,7 +390,7 @@ def judge_thick(case, plot, call, cells, loc, vals, origin_s, nuv, V, stats, dg)
                     continue
                 got = np.atleast_1d(np.asarray(datas[k][j, i], dtype=float))
                 if got.shape != exp.shape or not np.allclose(got, exp, rtol=1e-10, atol=1e-12, equal_nan=True):
-                    V("column", "reduced-value", {"layer": k, "pixel": [j, i], "got": got.tolist(), "want": exp.tolist(), "operation": op, "nz": nz,
+                    V("column", "reduced-value", {"layer": k, "pixel": [j, i], "got": got.tolist(), "want": exp.tolist(), "operation": op, "call_operation": case["operation"], "nz": nz,
                                                   "zstep": zstep, "column": col})
                     return None
     stats.inc("ambig.pixel_columns_with_face_sample", n_amb)
@@ -386,7 +399,7 @@ def judge_thick(case, plot, call, cells, loc, vals, origin_s, nuv, V, stats, dg)
 
 
 def measure(case):
-    return c03.measure(case) + (int(case["operation"] != "sum"), int(case["dz_unit"] != case["mesh"]["unit"]))
+    return c03.measure(case) + (int(case["operation"] != "sum") + sum(1 for l in case["layers"] if l.get("op")), int(case["dz_unit"] != case["mesh"]["unit"]))
 
 
 def canonical(case, viol):
@@ -409,6 +422,11 @@ def reductions(case, viol):
         yield c
     if case["operation"] != "sum":
         yield dict(case, operation="sum")
+    for k, l in enumerate(case["layers"]):
+        if l.get("op"):
+            d = dict(l)
+            del d["op"]
+            yield dict(case, layers=case["layers"][:k] + [d] + case["layers"][k + 1:])
     r = case["view"]["resolution"]
     if isinstance(r, dict) and r.get("z", 1) > 1:
         yield dict(case, view=dict(case["view"], resolution=dict(r, z=1)))
